@@ -28,8 +28,9 @@ theorem available_iff (u : Up) :
     u.avail = true ↔
       (u.healthy = true ∧ (∀ m, u.maxFails = some m → u.fails < m) ∧ (∀ ok, u.cb = some ok → ok = true)) ∧
       ¬(0 < u.maxReq ∧ u.maxReq ≤ u.load) := by
+  have key : (u.maxReq = 0 ∨ u.load < u.maxReq) ↔ (0 < u.maxReq → u.load < u.maxReq) := by omega
   unfold Up.avail Up.isHealthy Up.full
-  cases hm : u.maxFails <;> cases hc : u.cb <;> simp <;> omega
+  cases hm : u.maxFails <;> cases hc : u.cb <;> simp [key, and_assoc]
 
 /-! ## Safety: only available upstreams are returned — every policy, no exception -/
 
@@ -133,7 +134,7 @@ theorem select_some_if_any_available_partial : ∀ (p : Policy) (w : Bool) (pool
 theorem weightedRR_some_if_any_available_partial (ws : List Nat) (pool : Pool) (c : Nat)
     (hok : wrrOK pool ws = true)
     (h : (ws.length < 2 ∧ anyAvail pool = true) ∨
-         (2 ≤ ws.length ∧ ∃ i u w, pool[i]? = some u ∧ u.avail = true ∧ ws[i]? = some w ∧ 0 < w)) :
+         (2 ≤ ws.length ∧ ∃ (i : Nat) (u : Up) (w : Nat), pool[i]? = some u ∧ u.avail = true ∧ ws[i]? = some w ∧ 0 < w)) :
     ∃ i, (selWRR ws pool c).1 = .sel i := by
   rcases h with ⟨h2, ha⟩ | ⟨h2, i, u, w, hu, hav, hw, hpos⟩
   · have hne := select_some_if_any_available_partial .first true pool [] rfl ha
@@ -203,7 +204,7 @@ theorem select_never_panics_partial : ∀ (p : Policy) (w : Bool) (pool : Pool) 
 theorem first_is_earliest (pool : Pool) (i : Nat) (h : selFirst pool = .sel i) :
     ∀ j v, j < i → pool[j]? = some v → v.avail = false := by
   rcases firstGo_spec pool [] with ⟨h1, _⟩ | ⟨i', h1, _, h3⟩
-  · simp [selFirst] at h; rw [h] at h1; cases h1
+  · simp [selFirst] at h; simp at h1; rw [h] at h1; cases h1
   · simp [selFirst] at h
     simp at h1
     rw [h] at h1
@@ -335,7 +336,7 @@ theorem hash_sticky (p q : Pool) (w w' : Bool) (ds ds' : List Nat)
     (h : p.map (fun u => (u.avail, u.h)) = q.map (fun u => (u.avail, u.h))) :
     (select w .hash p ds).res = (select w' .hash q ds').res ∧ (select w .hash p ds).pol = .hash := by
   simp only [select, selHash]
-  exact ⟨hashGo_congr p q 0 0 .none h, rfl⟩
+  exact ⟨hashGo_congr p q 0 0 .none h, trivial⟩
 
 /-- the chosen upstream is an available one with the highest hash (the first of them in pool
     order), and its hash is not 0 -/
@@ -485,7 +486,7 @@ theorem cookie_sets_cookie_of_selected (c : Option Nat) (fb : Policy) (pool : Po
 /-- **the cookie round trip**: the cookie written for the selected upstream, sent back while that
     upstream is still available, selects an upstream with the same dial address (the first
     available one in pool order) -/
-theorem cookie_round_trip (fb fb' : Policy) (pool : Pool) (ds ds' : List Nat) (i : Nat) (u : Up)
+theorem cookie_round_trip (fb' : Policy) (pool : Pool) (ds' : List Nat) (i : Nat) (u : Up)
     (hu : pool[i]? = some u) (hav : u.avail = true) :
     ∃ j v, (select true (.cookie (some u.id) fb') pool ds').res = .sel j ∧ pool[j]? = some v ∧
       v.avail = true ∧ v.id = u.id ∧ j ≤ i := by
